@@ -10,6 +10,7 @@ itself cannot panic (undecodable signature, non-JSON, …) is checked on the rea
 correspondence run (monitor `no_answer`).
 -/
 import TeosVerif.Lemmas.Plugin
+import TeosVerif.Gen.PluginCalls
 
 namespace Teos.C14
 open Teos.Client Teos.Plugin
@@ -166,6 +167,17 @@ example :
     let s6 := (s5.step .restart).1
     s3.status 0 = some .misbehaving ∧ (s5.client.store.rcpts 0 2).isSome = false ∧
     s5.client.store.pending = [] ∧ s6.status 0 = some .misbehaving := by
+  decide
+
+/-- **flagging_call_sites_are_the_modelled_ones** (tie to the source, regenerated on every run): a tower is
+flagged as misbehaving only by the notification handler and by `Retrier::start` (on the proof `run` returns);
+registration receipts are recorded only by `register` and by `Retrier::run`; the five statuses and their
+display names are the model's. -/
+theorem flagging_call_sites_are_the_modelled_ones :
+    Gen.PluginCalls.flagMisbehaving = [("main", "on_commitment_revocation", ""), ("retrier", "start", "")] ∧
+    Gen.PluginCalls.addUpdateTower = [("main", "register", ""), ("retrier", "run", "")] ∧
+    Gen.PluginCalls.statusNames = [("Reachable", "reachable"), ("TemporaryUnreachable", "temporary unreachable"),
+      ("Unreachable", "unreachable"), ("SubscriptionError", "subscription error"), ("Misbehaving", "misbehaving")] := by
   decide
 
 end Teos.C14
